@@ -9,7 +9,7 @@ Recognised idioms (enumerated from the sites of the pinned tree):
  (iv)  a call of a predicate whose body compares find/rfind results of that needle (it implies presence).
 Everything else is an obligation failure (then either a frozen exception with its reason or a finding)."""
 import ast
-from ..core import walk_own, norm, parent_map
+from ..core import walk_own, norm, parent_map, lit, is_lit, NOLIT
 from ..report import Ob
 
 
@@ -18,7 +18,7 @@ def _is_find(n):
 
 
 def _minus_one(n):
-    return isinstance(n, ast.UnaryOp) and isinstance(n.op, ast.USub) and isinstance(n.operand, ast.Constant) and n.operand.value == 1
+    return is_lit(n, -1)
 
 
 def _compared_with_minus_one(f, name):
@@ -121,8 +121,8 @@ def check(ctx, clause, modules=None):
                         why = "the variable `%s` is only compared" % v
             if why is None:
                 why = _presence_established(ctx, f, call, pm)
-            if why is None and isinstance(par, ast.BinOp) and isinstance(par.op, ast.Add) and isinstance(par.right, ast.Constant) \
-                    and par.right.value == 1 and isinstance(pm.get(par), ast.Slice) and pm.get(par).lower is par:
+            if why is None and isinstance(par, ast.BinOp) and isinstance(par.op, ast.Add) and is_lit(par.right, 1) \
+                    and isinstance(pm.get(par), ast.Slice) and pm.get(par).lower is par:
                 why = "`s[s.rfind(c) + 1:]`: an absent needle gives 0, i.e. the whole string (total idiom)"
             if why is None:
                 why = _caller_establishes(ctx, f, call)
